@@ -8,6 +8,8 @@ CONSTANTS
   MaxIds = 2
   WTick = 1
   WData = 1
+  WConn = 1
+  DisruptEvery = 1
   MaxDepth = 1000
 VIEW View
 INVARIANT InvWithinCapacity
